@@ -9,6 +9,7 @@ import (
 	"math"
 	"net/netip"
 	"net/url"
+	"reflect"
 	"strings"
 	"testing"
 	"time"
@@ -76,6 +77,28 @@ func checkDuration(c DurCase) error {
 		var jb timeutil.Duration
 		if err = json.Unmarshal(j, &jb); err != nil || jb != d {
 			return fmt.Errorf("Duration(%d): JSON round trip through %s gives %d, %v", c.D, j, int64(jb), err)
+		}
+	}
+	// Inside other JSON values: struct field, pointer, slice, map value and
+	// map key (encoding/json uses the text methods for all of them).
+	type dwrap struct {
+		V timeutil.Duration            `json:"v"`
+		P *timeutil.Duration           `json:"p"`
+		N *timeutil.Duration           `json:"n"`
+		S []timeutil.Duration          `json:"s"`
+		M map[string]timeutil.Duration `json:"m"`
+		K map[timeutil.Duration]int    `json:"k"`
+	}
+	dw := dwrap{V: d, P: &d, S: []timeutil.Duration{d, 0, d}, M: map[string]timeutil.Duration{"x": d}, K: map[timeutil.Duration]int{d: 1}}
+	if wj, werr := json.Marshal(dw); werr != nil {
+		return fmt.Errorf("Duration(%d): json.Marshal inside a struct failed: %v", c.D, werr)
+	} else {
+		var back dwrap
+		wbuf := bytes.Clone(wj)
+		werr = json.Unmarshal(wbuf, &back)
+		vp.Scribble(wbuf)
+		if werr != nil || !reflect.DeepEqual(back, dw) {
+			return fmt.Errorf("Duration(%d): JSON round trip inside struct/pointer/slice/map/map-key through %s gives %+v, %v", c.D, wj, back, werr)
 		}
 	}
 	t := time.Duration(c.D).String()
@@ -159,6 +182,26 @@ func checkHostPort(c HPCase) error {
 	vp.Scribble(ubuf) // the caller reuses its buffer
 	if err != nil || u != hp {
 		return fmt.Errorf("HostPort{%s, %d}: UnmarshalText(%s) = %+v, %v", vp.Q(host), c.Port, vp.Q(string(text)), u, err)
+	}
+	if utf8.ValidString(host) {
+		type hwrap struct {
+			V netutil.HostPort         `json:"v"`
+			P *netutil.HostPort        `json:"p"`
+			S []netutil.HostPort       `json:"s"`
+			K map[netutil.HostPort]int `json:"k"`
+		}
+		hw := hwrap{V: hp, P: &hp, S: []netutil.HostPort{hp, {Host: "other", Port: 1}}, K: map[netutil.HostPort]int{hp: 7}}
+		wj, werr := json.Marshal(hw)
+		if werr != nil {
+			return fmt.Errorf("HostPort{%s, %d}: json.Marshal inside a struct failed: %v", vp.Q(host), c.Port, werr)
+		}
+		var hback hwrap
+		wbuf := bytes.Clone(wj)
+		werr = json.Unmarshal(wbuf, &hback)
+		vp.Scribble(wbuf)
+		if werr != nil || !reflect.DeepEqual(hback, hw) {
+			return fmt.Errorf("HostPort{%s, %d}: JSON round trip inside struct/pointer/slice/map-key through %s gives %+v, %v", vp.Q(host), c.Port, wj, hback, werr)
+		}
 	}
 	dirty := netutil.HostPort{Host: "stale.example", Port: 9}
 	if err = dirty.UnmarshalText(text); err != nil || dirty != hp {
